@@ -17,10 +17,16 @@ EXPLANATION = (
     "coefficients multiply to 1. R3: homogeneity degrees (phase 0, frequency 0, amplitude 1) for the three methods "
     "(amplitude_normalise typed degree 0 under the path condition 'the envelope exists', and its normalisation core "
     "x / envelope(x) is checked). R4: every documented method defines the analytic signal and the amplitude before "
-    "use; other literals raise. Not decided (the bulk of the behavioural statement): accuracy on sinusoids, the "
+    "use; other literals raise. R6 pipeline, per method: the analytic signal is scipy.signal.hilbert(IMFs or their "
+    "amplitude-normalised form, axis=0) / quadrature_transform(IMFs); the phase comes from phase_from_complex_signal("
+    "that signal, ret_phase='unwrapped', smoothing=the caller's); the amplitude is |signal| (hilbert) or the upper "
+    "envelope of every column stored at its own (i, j), over range(shape[1]) x range(shape[2]) of the array lifted to "
+    "3-D exactly when the input is 2-D and un-lifted exactly then (output in the shape of the input). R7: phase_from_complex_signal as called by the transform returns "
+    "unwrap(angle(signal), axis=0) + pi/2 in the shape of the signal; the median smoothing is applied exactly when "
+    "requested, column by column, with an odd window; ret_phase selects wrapped / unwrapped. Not decided (the bulk of the behavioural statement): accuracy on sinusoids, the "
     "smoothing window's effect, '%' returning exactly 2pi for a tiny negative phase.")
 RULE_TEXT = "one obligation per method x clause"
-FLOORS = {'C09.R1': 4, 'C09.R2': 5, 'C09.R3': 4, 'C09.R4': 4}
+FLOORS = {'C09.R1': 4, 'C09.R2': 5, 'C09.R3': 4, 'C09.R4': 4, 'C09.R6': 9, 'C09.R7': 3}
 
 FT = 'emd.spectra.frequency_transform'
 METHODS = ('hilbert', 'nht', 'quad')
@@ -33,6 +39,9 @@ def run(ctx):
     ctx.rule(rule_conversions, 'C09.R2')
     ctx.rule(rule_degrees, 'C09.R3')
     ctx.rule(rule_methods, 'C09.R4')
+    ctx.rule(rule_pipeline, 'C09.R6')
+    ctx.rule(rule_unwrapped_phase, 'C09.R7')
+    ctx.rule(rule_normalise_shape, 'C09.R3')
     # the nht / quad amplitude is an envelope through the extrema: it exists whenever there are two or more extrema
     # (the None-chain of the extrema routine, shared with C01.R4)
     from . import siftcore
@@ -272,3 +281,391 @@ def rule_methods(ctx, rid):
         ctx.passed(rid, fi, c)
     else:
         ctx.violation(rid, fi, c, 'unknown method does not raise')
+
+
+# ----------------------------------------------------------------------------------------------
+# C09.R6: the per-method pipeline of frequency_transform, clause by clause
+def _imf_root(t):
+    """the (ensured) input IMFs, with the lift imf[:, :, None] stripped: -> (root, lifted?)"""
+    FULL = ('slice', NONE, NONE, NONE)
+    lifted = False
+    if t[0] == 'sub' and t[2] == ('tuple', (FULL, FULL, NONE)):
+        t, lifted = t[1], True
+    if t == S('imf'):
+        return t, lifted
+    if t[0] == 'call' and t[1] == 'emd.support.ensure_2d':
+        lst = dict(t[3]).get('to_check', t[2][0] if t[2] else None)
+        if lst is not None and lst[0] in ('list', 'tuple') and lst[1] == (S('imf'),):
+            return S('imf'), lifted
+    return None, lifted
+
+
+def rule_pipeline(ctx, rid):
+    P = ctx.P
+    fi = P.func(FT)
+    FULL = ('slice', NONE, NONE, NONE)
+    for m in METHODS:
+        exits = [e for e in Evaluator(P).run(fi, context={'method': m}) if e.kind == 'return']
+        ctx.paths += len(exits)
+        c_sig = "method '%s': the analytic signal is the documented transform of the IMFs along the sample axis" % m
+        c_ph = "method '%s': the phase is the unwrapped phase of that signal with the caller's smoothing" % m
+        c_am = "method '%s': the amplitude is %s, in the shape of the input" % (
+            m, '|analytic signal|' if m == 'hilbert' else 'the upper envelope of every column')
+        bad = {c_sig: None, c_ph: None, c_am: None}
+        und = {}
+        n = 0
+        for e in exits:
+            v = e.value
+            if not (v[0] == 'tuple' and len(v[1]) == 3):
+                continue
+            n += 1
+            ph, fr, am = v[1]
+            pcs = [t for t in subterms(fr) if t[0] == 'call' and t[1] == 'emd.spectra.phase_from_complex_signal']
+            if not pcs:
+                und[c_ph] = 'frequency is %s' % show(fr)[:60]
+                continue
+            kw = dict(pcs[0][3])
+            A = kw.get('complex_signal', NONE)
+            if kw.get('ret_phase') != C('unwrapped'):
+                bad[c_ph] = "phase_from_complex_signal(ret_phase=%s): the frequency must be computed from the unwrapped phase" % show(
+                    kw.get('ret_phase', NONE))
+            if kw.get('smoothing', NONE) != S('smooth_phase'):
+                bad[c_ph] = 'the smoothing requested by the caller is replaced by %s' % show(kw.get('smoothing', S('<default>')))
+            if kw.get('phase_jump', C('ascending')) != C('ascending'):
+                bad[c_ph] = 'phase_jump=%s' % show(kw['phase_jump'])
+            # --- analytic signal
+            if m in ('hilbert', 'nht'):
+                if not (A[0] == 'call' and A[1] == 'scipy.signal.hilbert' and A[2]):
+                    if A[0] == 'call':
+                        bad[c_sig] = 'the analytic signal is %s' % show(A)[:70]
+                    else:
+                        und[c_sig] = 'analytic signal %s' % show(A)[:70]
+                    continue
+                akw = dict(A[3])
+                ax = akw.get('axis', A[2][2] if len(A[2]) > 2 else C(-1))
+                if ax != C(0):
+                    bad[c_sig] = 'scipy.signal.hilbert runs along axis %s (default: the last axis = across IMFs), not along the ' \
+                                 'samples' % show(ax)
+                src = A[2][0]
+                if m == 'hilbert':
+                    root, lifted = _imf_root(src)
+                    if root is None:
+                        bad[c_sig] = 'the Hilbert transform is applied to %s, not to the IMFs' % show(src)[:60]
+                else:
+                    if not (src[0] == 'call' and src[1] == 'emd.utils.amplitude_normalise'):
+                        bad[c_sig] = "'nht' transforms %s, not the amplitude-normalised IMFs" % show(src)[:60]
+                    else:
+                        root, lifted = _imf_root(dict(src[3]).get('X', NONE))
+                        if root is None:
+                            bad[c_sig] = 'amplitude_normalise is applied to %s' % show(dict(src[3]).get('X', NONE))[:50]
+            else:
+                if not (A[0] == 'call' and A[1] == 'emd.spectra.quadrature_transform' and _imf_root(dict(A[3]).get('X', NONE))[0] is not None):
+                    bad[c_sig] = "'quad' uses %s as analytic signal" % show(A)[:70]
+            # --- amplitude
+            if m == 'hilbert':
+                if am[0] == 'call' and am[1] in ('numpy.abs', 'numpy.absolute') and am[2] and am[2][0] == A:
+                    pass
+                elif am[0] == 'call' and am[1] in ('numpy.real', 'numpy.imag', 'numpy.angle', 'numpy.abs', 'numpy.absolute', 'numpy.square'):
+                    bad[c_am] = 'the amplitude is %s' % show(am)[:60].replace(show(A), 'analytic_signal')
+                elif am[0] == 'attr' and am[2] in ('real', 'imag'):
+                    bad[c_am] = 'the amplitude is the %s part of the analytic signal' % am[2]
+                else:
+                    und[c_am] = 'amplitude %s' % show(am)[:60]
+                continue
+            # nht / quad: envelope per column, lifted to 3-D and back
+            is2d = None
+            for cd, tr, ln in e.state.conds:
+                if cd[0] == 'cmp' and cd[1] in ('==', '!=') and cd[3] == C(2) and cd[2][0] == 'attr' and cd[2][2] == 'ndim' \
+                        and _imf_root(cd[2][1])[0] is not None:
+                    is2d = (cd[1] == '==') == tr
+            post = am
+            unlift = False
+            if am[0] == 'sub' and am[2] in (('tuple', (FULL, FULL, C(0))), ('tuple', (FULL, FULL, C(-1)))):
+                post, unlift = am[1], True         # the auxiliary axis has length one: element 0 is element -1
+            elif am[0] == 'sub' and am[2][0] == 'tuple' and len(am[2][1]) == 3 and am[2][1][:2] == (FULL, FULL) \
+                    and is_c(am[2][1][2]) and isinstance(am[2][1][2][1], int):
+                bad[c_am] = 'element %d of the auxiliary axis (length one) is taken: IndexError for every 2-D input' % am[2][1][2][1]
+                continue
+            if not (post[0] == 's' and '@F' in post[1]):
+                und[c_am] = 'amplitude %s' % show(am)[:60]
+                continue
+            if is2d is None:
+                und[c_am] = 'no test of the number of dimensions on this path'
+                continue
+            if is2d != unlift:
+                bad[c_am] = ('for 2-D input the amplitude keeps the auxiliary third axis (shape [samples, imfs, 1])' if is2d
+                             else 'for 3-D input the last axis is dropped ([:, :, 0])')
+                continue
+            name = post[1].split('@')[0]
+            found = False
+            for ls in e.state.loops:
+                if ls.kind != 'for':
+                    continue
+                for kind, b in ls.body_states:
+                    for l2 in b.loops:
+                        if l2.kind != 'for' or l2.node is ls.node:
+                            continue
+                        for k2, b2 in l2.body_states:
+                            for f in b2.effects:
+                                if f[0] != 'setitem' or f[5] != name:
+                                    continue
+                                found = True
+                                idx, val = f[2], f[3]
+                                if idx != ('tuple', (FULL, ls.var, l2.var)):
+                                    bad[c_am] = 'the envelope of column (%s, %s) is stored at %s' % (show(ls.var), show(l2.var), show(idx)[:40])
+                                if not (val[0] == 'call' and val[1] in ('emd.sift.interp_envelope', 'emd.utils.interp_envelope')):
+                                    bad[c_am] = 'the amplitude of a column is %s' % show(val)[:60]
+                                    continue
+                                vkw = dict(val[3])
+                                if vkw.get('mode', C('upper')) != C('upper'):
+                                    bad[c_am] = "interp_envelope(mode=%s): the amplitude is the upper envelope" % show(vkw['mode'])
+                                X = vkw.get('X', NONE)
+                                okx = X[0] == 'sub' and X[2] == ('tuple', (FULL, ls.var, l2.var))
+                                root, lifted = _imf_root(X[1]) if okx else (None, False)
+                                if not okx or root is None:
+                                    bad[c_am] = 'the envelope stored for column (%s, %s) is computed from %s' % (
+                                        show(ls.var), show(l2.var), show(X)[:60])
+                                elif lifted != is2d:
+                                    bad[c_am] = 'a %s-D input is indexed with three indices %s the auxiliary axis' % (
+                                        2 if is2d else 3, 'without' if is2d else 'after adding')
+                                # loop ranges
+                                for lsx, axn in ((ls, 1), (l2, 2)):
+                                    it = lsx.iter_term
+                                    okr = it[0] == 'call' and it[1] == 'builtins.range' and len(it[2]) == 1 and it[2][0][0] == 'sub' \
+                                        and it[2][0][2] == C(axn) and it[2][0][1][0] == 'attr' and it[2][0][1][2] == 'shape' \
+                                        and _imf_root(it[2][0][1][1])[0] is not None
+                                    if not okr:
+                                        bad[c_am] = 'the loop over axis %d runs over %s' % (axn, show(it)[:60])
+            if not found and bad[c_am] is None:
+                bad[c_am] = 'the per-column envelopes are never stored: the amplitude stays zero'
+        for c in (c_sig, c_ph, c_am):
+            if bad[c]:
+                ctx.violation(rid, fi, c, bad[c])
+            elif c in und:
+                ctx.undecided(rid, fi, c, und[c])
+            elif n == 0:
+                ctx.undecided(rid, fi, c, 'no returning path')
+            else:
+                ctx.passed(rid, fi, c, '%d return path(s)' % n)
+
+
+# ----------------------------------------------------------------------------------------------
+# C09.R7: the unwrapped phase handed to the frequency estimate
+def rule_unwrapped_phase(ctx, rid):
+    """phase_from_complex_signal(signal, smoothing, ret_phase='unwrapped', phase_jump='ascending') - the call made by
+    frequency_transform - returns unwrap(angle(signal), axis=0) + pi/2 in the shape of the signal; with smoothing
+    requested every column is replaced by an odd-window median filter of itself, without it nothing is filtered."""
+    P = ctx.P
+    fi = P.func('emd.spectra.phase_from_complex_signal')
+    alg = mk_algebra()
+    FULL = ('slice', NONE, NONE, NONE)
+    U = ('call', 'numpy.unwrap', (('call', 'numpy.angle', (S('complex_signal'),), ()),), (('axis', C(0)),))
+    c_core = "ascending / unwrapped: the result is unwrap(angle(signal), axis=0) + pi/2 in the shape of the signal"
+    c_sm = 'the median smoothing is applied exactly when requested, column by column, with an odd window'
+    c_sel = "ret_phase selects the unwrapped phase or its wrapped form"
+    exits = Evaluator(P).run(fi, context={'ret_phase': 'unwrapped', 'phase_jump': 'ascending'})
+    ctx.paths += len(exits)
+    bad_core = bad_sm = None
+    n = 0
+    for e in exits:
+        if e.kind != 'return':
+            bad_core = "ret_phase='unwrapped', phase_jump='ascending' raises %s" % show(e.value)[:50]
+            continue
+        n += 1
+        v = e.value
+        unw = [t for t in subterms(v) if t[0] == 'call' and t[1] == 'numpy.unwrap']
+        sm = None
+        is2d = None
+        for cd, tr, ln in e.state.conds:
+            r = None
+            if cd[0] == 'cmp' and cd[2] == S('smoothing') and cd[3] == NONE and cd[1] in ('is', 'isnot'):
+                sm = (cd[1] == 'isnot') == tr
+            if cd[0] == 'cmp' and cd[1] in ('==', '!=') and cd[3] == C(2) and cd[2][0] == 'attr' and cd[2][2] == 'ndim':
+                is2d = (cd[1] == '==') == tr
+        # offset
+        if not (v[0] == 'bin' and v[1] in ('+', '-')):
+            bad_core = 'the result is %s' % show(v)[:70]
+            continue
+        core, off = v[2], v[3]
+        try:
+            okoff = v[1] == '+' and alg.poly(off) == alg.poly(('bin', '/', ('ref', 'numpy.pi'), C(2)))
+        except Exception:
+            okoff = False
+        if not okoff:
+            bad_core = "phase_jump='ascending' shifts the phase by %s%s, not by +pi/2 (a sinusoid's starting phase is then not " \
+                       "recovered)" % (v[1], show(off)[:30])
+            continue
+        unlift = False
+        if core[0] == 'sub' and core[2] in (('tuple', (FULL, FULL, C(0))), ('tuple', (FULL, FULL, C(-1)))):
+            core, unlift = core[1], True
+        if is2d is not None and is2d != unlift:
+            bad_core = ('for a 2-D signal the phase keeps the auxiliary third axis' if is2d
+                        else 'for a 3-D signal the last axis is dropped')
+            continue
+        post = core
+        lifted = False
+        if core[0] == 'sub' and core[2] == ('tuple', (FULL, FULL, NONE)):
+            core, lifted = core[1], True
+        if core == U:
+            if sm is True:
+                bad_sm = 'smoothing is requested but the phase returned is not filtered'
+            if lifted != unlift:
+                bad_core = 'the auxiliary axis is added without being removed (or the reverse)'
+            continue
+        if not unw and not (post[0] == 's' and '@F' in post[1]):
+            bad_core = 'the phase is not np.unwrap(np.angle(signal)): %s' % show(core)[:60]
+            continue
+        if unw and unw[0] != U and unw[0][0] == 'call':
+            ax = dict(unw[0][3]).get('axis', C(-1))
+            if unw[0][2] != U[2]:
+                bad_core = 'the phase unwrapped is %s, not np.angle(complex_signal)' % show(unw[0][2][0])[:50]
+            elif ax != C(0):
+                bad_core = 'np.unwrap runs along axis %s (default: the last axis = across IMFs), not along the samples' % show(ax)
+            continue
+        if post[0] == 's' and '@F' in post[1]:
+            # the smoothed array
+            if sm is False:
+                bad_sm = 'the phase is filtered although no smoothing was requested'
+                continue
+            name = post[1].split('@')[0]
+            seen = False
+            for ls in e.state.loops:
+                if ls.kind != 'for':
+                    continue
+                ent = ls.entry_env.get(name)
+                want_ent = ('sub', U, ('tuple', (FULL, FULL, NONE))) if is2d else U
+                if ent is not None and ent != want_ent:
+                    bad_core = 'the array that is smoothed starts as %s' % show(ent)[:70]
+                for kind, b in ls.body_states:
+                    for l2 in b.loops:
+                        if l2.kind != 'for' or l2.node is ls.node:
+                            continue
+                        for k2, b2 in l2.body_states:
+                            for f in b2.effects:
+                                if f[0] != 'setitem' or f[5] != name:
+                                    continue
+                                seen = True
+                                idx, val = f[2], f[3]
+                                if idx != ('tuple', (FULL, ls.var, l2.var)):
+                                    bad_sm = 'the filtered column is stored at %s' % show(idx)[:40]
+                                if not (val[0] == 'call' and val[1] == 'scipy.signal.medfilt' and val[2]):
+                                    bad_sm = 'a column is replaced by %s' % show(val)[:60]
+                                    continue
+                                a0 = val[2][0]
+                                if not (a0[0] == 'sub' and a0[2] == ('tuple', (FULL, ls.var, l2.var))):
+                                    bad_sm = 'column (%s, %s) is replaced by the filter of %s' % (show(ls.var), show(l2.var), show(a0)[:50])
+                                k = dict(val[3]).get('kernel_size', val[2][1] if len(val[2]) > 1 else C(3))
+                                if is_c(k) and isinstance(k[1], int) and (k[1] % 2 == 0 or k[1] < 1):
+                                    bad_sm = 'scipy.signal.medfilt needs an odd window, %d raises ValueError' % k[1]
+                        for lsx, axn in ((ls, 1), (l2, 2)):
+                            it = lsx.iter_term
+                            okr = it[0] == 'call' and it[1] == 'builtins.range' and len(it[2]) == 1 and it[2][0][0] == 'sub' \
+                                and it[2][0][2] == C(axn) and it[2][0][1][0] == 'attr' and it[2][0][1][2] == 'shape'
+                            if not okr:
+                                bad_sm = 'the loop over axis %d of the phase runs over %s' % (axn, show(it)[:50])
+            if not seen and bad_sm is None:
+                bad_sm = 'smoothing is requested but no column is filtered'
+            continue
+        bad_core = 'the phase is %s' % show(core)[:70]
+    if bad_core:
+        ctx.violation(rid, fi, c_core, bad_core)
+    elif n == 0:
+        ctx.undecided(rid, fi, c_core, 'no returning path')
+    else:
+        ctx.passed(rid, fi, c_core, '%d paths' % n)
+    if bad_sm:
+        ctx.violation(rid, fi, c_sm, bad_sm)
+    elif n:
+        ctx.passed(rid, fi, c_sm, '%d paths' % n)
+    # ret_phase table
+    bad = None
+    for rp in ('unwrapped', 'wrapped'):
+        for e in Evaluator(P).run(fi, context={'ret_phase': rp, 'phase_jump': 'ascending', 'smoothing': None}):
+            if e.kind != 'return':
+                bad = "ret_phase='%s' raises" % rp
+                continue
+            wrapped = e.value[0] == 'call' and e.value[1] == 'emd.utils.wrap_phase'
+            if e.value == NONE:
+                bad = "ret_phase='%s' returns None" % rp
+            elif wrapped != (rp == 'wrapped'):
+                bad = "ret_phase='%s' returns the %s phase" % (rp, 'wrapped' if wrapped else 'unwrapped')
+    if bad:
+        ctx.violation(rid, fi, c_sel, bad)
+    else:
+        ctx.passed(rid, fi, c_sel)
+
+
+def rule_normalise_shape(ctx, rid):
+    """amplitude_normalise returns an array in the shape of its input: a copy of the input is lifted to 3-D exactly
+    when it is 2-D, every column (i, j) of the lifted copy is visited, and the auxiliary axis is removed exactly when it
+    was added; the caller's array is never the one that is normalised."""
+    P = ctx.P
+    fi = P.func('emd.utils.amplitude_normalise')
+    FULL = ('slice', NONE, NONE, NONE)
+    c = 'the normalised IMFs come back in the shape of the input (2-D lifted to 3-D and back), computed on a copy'
+    bad = None
+    n = 0
+    for e in Evaluator(P).run(fi, context={'clip': False}):
+        ctx.paths += 1
+        if e.kind != 'return':
+            continue
+        n += 1
+        v = e.value
+        unlift = False
+        if v[0] == 'sub' and v[2] in (('tuple', (FULL, FULL, C(0))), ('tuple', (FULL, FULL, C(-1)))):
+            v, unlift = v[1], True
+        if not (v[0] == 's' and '@F' in v[1]):
+            ctx.undecided(rid, fi, c, 'returns %s' % show(e.value)[:60])
+            return
+        name = v[1].split('@')[0]
+        outer = [ls for ls in e.state.loops if ls.kind == 'for' and name in ls.entry_env]
+        if not outer:
+            ctx.undecided(rid, fi, c, 'no loop over the columns')
+            return
+        ent = outer[0].entry_env[name]
+        lifted = False
+        if ent[0] == 'sub' and ent[2] == ('tuple', (FULL, FULL, NONE)):
+            ent, lifted = ent[1], True
+        if ent == S('X'):
+            bad = "the caller's array itself is normalised in place (no copy)"
+            break
+        if not (ent[0] == 'meth' and ent[1] == 'copy' and ent[2] == S('X')) and not (
+                ent[0] == 'call' and ent[1] in ('numpy.array', 'numpy.copy') and ent[2] and ent[2][0] == S('X')):
+            ctx.undecided(rid, fi, c, 'the array normalised starts as %s' % show(ent)[:60])
+            return
+        # which dimensionality does this path assume for the (copied) input?
+        is2d = None
+        for cd, tr, ln in e.state.conds:
+            if cd[0] == 'cmp' and cd[1] in ('==', '!=') and cd[3] == C(2) and cd[2][0] == 'attr' and cd[2][2] == 'ndim' \
+                    and cd[2][1] in (ent, S('X')):
+                val = (cd[1] == '==') == tr
+                if is2d is not None and is2d != val:
+                    is2d = 'infeasible'
+                    break
+                is2d = val
+        if is2d == 'infeasible':
+            n -= 1
+            continue            # X.ndim and X.copy().ndim disagree: not a real path
+        if is2d is None:
+            ctx.undecided(rid, fi, c, 'no test of the number of dimensions on a path')
+            return
+        if lifted != is2d:
+            bad = 'a %d-D input is %s' % (2 if is2d else 3, 'not lifted to 3-D before it is indexed with three indices' if is2d
+                                         else 'given a fourth axis')
+            break
+        if unlift != is2d:
+            bad = ('for 2-D input the result keeps the auxiliary third axis (shape [samples, imfs, 1])' if is2d
+                   else 'for 3-D input the last axis of the result is dropped')
+            break
+        it = outer[0].iter_term
+        okr = it[0] == 'call' and it[1] == 'builtins.range' and len(it[2]) == 1 and it[2][0][0] == 'sub' and it[2][0][2] == C(1) \
+            and it[2][0][1][0] == 'attr' and it[2][0][1][2] == 'shape'
+        if not okr:
+            bad = 'the loop over first-level IMFs runs over %s' % show(it)[:60]
+            break
+    if bad:
+        ctx.violation(rid, fi, c, bad)
+    elif n == 0:
+        ctx.undecided(rid, fi, c, 'no returning path')
+    else:
+        ctx.passed(rid, fi, c, '%d feasible paths' % n)
